@@ -667,6 +667,18 @@ func c09histories(c *Ctx, file, base string, raw []byte, sigs []c09sig, keys []*
 		hd(n).Set("uuid", jmut.S("0190a1b2-c3d4-7e5f-8a9b-0c1d2e3f4a5b"))
 		return true
 	})
+	// the digest entry names its algorithm too: the signed header says sha256
+	for _, alg := range []string{"sha512", "SHA256", ""} {
+		alg := alg
+		add("digest algorithm renamed to "+fmt.Sprintf("%q", alg), "digest-replaced", func(n *jmut.Node) bool {
+			d := hd(n).Get("dig")
+			if d == nil || d.Get("alg") == nil {
+				return false
+			}
+			d.Set("alg", jmut.S(alg))
+			return true
+		})
+	}
 	add("digest replaced", "digest-replaced", func(n *jmut.Node) bool {
 		d := hd(n).Get("dig")
 		if d == nil {
